@@ -461,8 +461,22 @@ def r3_r4(run: Run, rt):
         find, within, start = ps
         parents = parent_map(fn)
         sites = []
+        pos_of = {}           # id(site call) -> the expression given as the position the search starts at
         for c in ast.walk(fn):
             if not isinstance(c, ast.Call):
+                continue
+            # re.compile(P, flags).search(S[, pos]) is read as re.search(P, S, flags) that starts at pos
+            if isinstance(c.func, ast.Attribute) and c.func.attr in ('search', 'match', 'fullmatch', 'finditer') and \
+                    isinstance(c.func.value, ast.Call) and ast.unparse(c.func.value.func) == 're.compile' and c.func.value.args and c.args:
+                comp = c.func.value
+                syn = ast.copy_location(ast.Call(func=ast.Attribute(value=ast.Name(id='re', ctx=ast.Load()), attr=c.func.attr, ctx=ast.Load()),
+                                                 args=[comp.args[0], c.args[0]] + list(comp.args[1:]), keywords=list(comp.keywords)), c)
+                ast.fix_missing_locations(syn)
+                subj, sm = _strip_case(c.args[0])
+                if within in {n.id for n in ast.walk(subj) if isinstance(n, ast.Name)}:
+                    sites.append(('re', syn, subj, sm))
+                    if len(c.args) >= 2:
+                        pos_of[id(syn)] = c.args[1]
                 continue
             if isinstance(c.func, ast.Attribute) and c.func.attr in ('find', 'index') and c.args:
                 recv, rm = _strip_case(c.func.value)
@@ -588,6 +602,23 @@ def r3_r4(run: Run, rt):
                 t = n.generators[0].ifs[0]
                 if '__P__' in ast.unparse(_posify(t)) and start in {x.id for x in ast.walk(t) if isinstance(x, ast.Name)}:
                     tests.append((t, 'select'))
+        started = [(c_, pos_of[id(c_)]) for k_, c_, _, _ in sites if k_ == 're' and id(c_) in pos_of]
+        for c_, pe in started:
+            a = _affine2(pe, {start: 's'})
+            run.check(a == ({'s': 1}, -1), 'C17.R3', f'_search[{cp.label}]/wildcard path/start', 'start-offset',
+                      f'the wildcard search starts at `{ast.unparse(pe)}`; the 1-based start s is the 0-based offset s - 1', fact='start - 1',
+                      loc=cp.loc(c_))
+        # R4: the text to find reaches the regex without re.escape
+        esc = any(isinstance(c, ast.Call) and ast.unparse(c.func) == 're.escape' for c in ast.walk(fn))
+        re_sites = [c for k, c, _, _ in sites if k == 're']
+        if re_sites and not esc:
+            run.bad('C17.R4', '_search/wildcard path', 'metachars-unescaped',
+                    f'the text to find reaches `{ast.unparse(re_sites[0].func)}` with only ? and * rewritten: other regex metacharacters '
+                    f'of the user text are interpreted (SEARCH("(*","a(b") raises re.error)', loc=cp.loc(re_sites[0]))
+        else:
+            run.ok('C17.R4', f'_search[{cp.label}]/escape', 're.escape on the literal parts', loc=cp.loc(fn))
+        if not tests and started:
+            continue
         if not tests:
             raise AnalysisError('C17.R3', '_search: the wildcard path does not skip matches before the start in a modelled form')
         for t, kind in tests:
@@ -606,15 +637,6 @@ def r3_r4(run: Run, rt):
                       f'with `{ast.unparse(t)[:60]}` a match at 1-based position {bad_pt[0] + 1 if bad_pt else ""} and start '
                       f'{bad_pt[1] if bad_pt else ""} is {"skipped" if bad_pt and bad_pt[2] else "kept"}; a match is skipped exactly when '
                       f'its position is before the start', fact='skip iff position + 1 < start', loc=cp.loc(t))
-        # R4: the text to find reaches the regex without re.escape
-        esc = any(isinstance(c, ast.Call) and ast.unparse(c.func) == 're.escape' for c in ast.walk(fn))
-        re_sites = [c for k, c, _, _ in sites if k == 're']
-        if re_sites and not esc:
-            run.bad('C17.R4', '_search/wildcard path', 'metachars-unescaped',
-                    f'the text to find reaches `{ast.unparse(re_sites[0].func)}` with only ? and * rewritten: other regex metacharacters '
-                    f'of the user text are interpreted (SEARCH("(*","a(b") raises re.error)', loc=cp.loc(re_sites[0]))
-        else:
-            run.ok('C17.R4', f'_search[{cp.label}]/escape', 're.escape on the literal parts', loc=cp.loc(fn))
 
 
 def _posify(e):
@@ -828,8 +850,8 @@ SEARCH_CASES = [
     ('~?', 'what? no', None, 5), ('~*', 'a*b', None, 2),
     # wildcards, on texts where occurrences do not overlap
     ('h?llo', 'Hello World', None, 1), ('?o', 'Hello World', None, 4), ('?o', 'Hello World', 5, 7), ('w*d', 'Hello World', None, 7),
-    ('o?', 'Hello World', 6, 8), ('x?z', 'Hello World', None, 'error'), ('W?r', 'Hello World', 8, 'error'),
-    ('?', 'abc', 2, 2), ('[', 'a[0]', None, 2), ('\\d', 'a1 \\d', None, 4), ('$', 'cost $5', None, 6),
+    ('o*d', 'Hello World', 6, 8), ('o?', 'Hello World', 6, 8), ('x?z', 'Hello World', None, 'error'), ('W?r', 'Hello World', 8, 'error'),
+    ('?', 'abc', 2, 2), ('b*', 'abcabc', 3, 5), ('?l', 'Hello', 3, 3), ('l*', 'Hello', 4, 4), ('[', 'a[0]', None, 2), ('\\d', 'a1 \\d', None, 4), ('$', 'cost $5', None, 6),
 ]
 
 
